@@ -48,6 +48,7 @@ func c19(c *Ctx) {
 	c.lockOrder()
 	c.stickySignals()
 	c.abandonedProducersAreDrained()
+	c.plainSendsAreTabled()
 }
 
 // ---- R19.9 ---------------------------------------------------------------------------------
@@ -1511,4 +1512,52 @@ func (c *Ctx) abandonedProducersAreDrained() {
 		}
 	}
 	R.Min("R19.10", "early exits of the response-forwarding loop", n, 1)
+}
+
+// plainSendsAreTabled (R19.11): a goroutine of the session never blocks in a send that nothing can interrupt.
+func (c *Ctx) plainSendsAreTabled() {
+	P, R := c.P, c.R
+	R.Explain("R19.11", "no uninterruptible hand-over: in internal/session a plain blocking channel send (outside any select) is made only on the two channel kinds whose reader is guaranteed by other rules - the per-command response channel (chan response.Response, drained until closed: R19.10) and the application's event channel (events.Event, a queued channel).  Every other send - the command reader handing parsed commands to the session loop, ... - sits in a select with a case that fires on shutdown (<-ctx.Done() or a quit channel); a check-then-send (`if ctx.Err() != nil {return}; ch <- x`) blocks for ever once the receiver has gone, and the goroutine with its connection and buffers outlives Close.")
+	allowedElem := func(t types.Type) bool {
+		ch, ok := t.Underlying().(*types.Chan)
+		if !ok {
+			return false
+		}
+		return engine.IsNamed(ch.Elem(), "internal/response", "Response") || engine.IsNamed(ch.Elem(), "events", "Event")
+	}
+	n, sel := 0, 0
+	for _, f := range c.funcsInPkg("internal/session") {
+		for _, b := range f.Blocks {
+			for _, in := range b.Instrs {
+				switch t := in.(type) {
+				case *ssa.Send:
+					n++
+					if allowedElem(t.Chan.Type()) {
+						continue
+					}
+					R.Check(false, "R19.11", c.name(c.ownerFn(f))+"|plain send of "+types.TypeString(t.Chan.Type().Underlying().(*types.Chan).Elem(), func(p *types.Package) string { return p.Name() }), P.Pos(t.Pos()), "", "a blocking send outside a select: nothing can interrupt it when the receiver is gone (session ended, server closing); the goroutine leaks")
+				case *ssa.Select:
+					// a blocking select that sends on a non-tabled channel needs a receive case (shutdown signal)
+					if !t.Blocking {
+						continue
+					}
+					hasSend, hasRecv := false, false
+					for _, st := range t.States {
+						if st.Dir == types.SendOnly && !allowedElem(st.Chan.Type()) {
+							hasSend = true
+						}
+						if st.Dir == types.RecvOnly {
+							hasRecv = true
+						}
+					}
+					if hasSend {
+						sel++
+						R.Check(hasRecv, "R19.11", c.name(c.ownerFn(f))+"|select with send", P.Pos(t.Pos()), "the select also waits for a shutdown signal", "a select that sends has no receive case: it cannot be interrupted on shutdown")
+					}
+				}
+			}
+		}
+	}
+	R.Stats["R19.11 plain sends seen (tabled kinds)"] = n
+	R.Min("R19.11", "interruptible sends (select with a send on a non-tabled channel)", sel, 1)
 }
